@@ -1707,7 +1707,7 @@ def cursor_loops_as_recursion(prog: Program) -> list[str]:
 
     for fi in list(prog.functions.values()):
         node = fi.node
-        if not fi.is_method or not isinstance(node, ast.FunctionDef) or {"staticmethod", "classmethod"} & set(fi.decorator_names()):
+        if not fi.is_method or not isinstance(node, ast.FunctionDef) or node.decorator_list:
             continue
         params = node.args.posonlyargs + node.args.args
         if not params:
